@@ -97,11 +97,14 @@ Proof.
     apply dv_int; auto. }
   destruct (kweq (lower k) "minomax"); [discriminate|].
   destruct (kweq (lower k) "number") eqn:E3.
-  { destruct l as [|[a| |[|[| |] ?]] [|]]; try discriminate. destruct (int_tok a) eqn:I; [|discriminate]. inversion H; subst.
-    apply dv_int; auto. }
+  { destruct l as [|[a| |[|[e| |] ?]] ?]; try discriminate.
+    - destruct l; [|discriminate]. destruct (int_tok a) eqn:I; [|discriminate]. inversion H; subst.
+      apply dv_int; auto.
+    - destruct (kweq (lower e) "e"); discriminate. }
   destruct (kweq (lower k) "point"); [discriminate|].
   destruct (kweq (lower k) "string") eqn:E4; [|discriminate].
-  destruct l as [|[|s|] [|]]; try discriminate. destruct (str_tok_ok s); [|discriminate]. inversion H; subst.
+  destruct l as [|[|s|] [|]]; try discriminate. destruct (str_tok_ok s); [|discriminate].
+  destruct (unescape_value s) as [v'|] eqn:U; [|discriminate]. inversion H; subst.
   now apply dv_str.
 Qed.
 
